@@ -376,8 +376,21 @@ def run_jobs(jobs, seed, stdin_by_job=None):
         if p.returncode != 0:
             err = e.decode("utf-8", "replace")
             k = err.rfind("HIST-BEGIN")
-            failures.append((key, err[k:][-6000:] if k >= 0 else err[-1500:]))
+            tail = ErrTail(f"[harness process exit code {p.returncode}{' (killed by signal %d)' % -p.returncode if p.returncode < 0 else ''}]\n"
+                           + (err[k:][-6000:] if k >= 0 else err[-1500:]))
+            tail.rc = p.returncode
+            c = err.rfind("CASE M ")
+            tail.last_case = err[c + 5:].split("\n", 1)[0] if c >= 0 else None
+            tail.cmd = " ".join([b] + [str(a) for a in args])
+            failures.append((key, tail))
     return lines, counts, failures
+
+
+class ErrTail(str):
+    """stderr tail of a failed harness job, with its exit code, the last case it announced and its command line"""
+    rc = 0
+    last_case = None
+    cmd = ""
 
 
 def simple_check(ctx, jobs, rule, nontrivial, describe=None, known_filter=None, correspondence="", assumptions=(), shrinker=None,
@@ -433,17 +446,26 @@ def simple_check(ctx, jobs, rule, nontrivial, describe=None, known_filter=None, 
             l, part = shrinker(ctx, l, part)
         violation(ctx, part, dict(kind="oracle-on-implementation", clause=part, case=(describe(l) if describe else l[:2000]),
                                   harness_line=l[:6000], replay_cmd=f"./check {pid} --replay <this file>"))
+    def crashed(f):
+        return "HIST-BEGIN" in f[1] or "panicked" in f[1] or getattr(f[1], "rc", 0) < 0
+
     if not unknown:
-        if not st["ok"]:
+        if hb_ok and failures and any(crashed(f) for f in failures):
+            # the real code died (panic, abort, signal) on a generated case: that case is the failing input
+            key, err = [f for f in failures if crashed(f)][0]
+            msg = [l for l in err.splitlines() if "panicked" in l or "overflow" in l or "abort" in l.lower() or "signal" in l]
+            rep = dict(kind="crash-in-implementation", harness_job=key, history_so_far=[l for l in err.splitlines() if l.startswith("EV") or l.startswith("HIST")],
+                       stderr_tail=err[-2500:], replay_cmd=f"VERIF_SEED={ctx.seed} harness/target/release/" + (getattr(err, "cmd", "") or key))
+            if getattr(err, "last_case", None):
+                rep["harness_line"] = err.last_case[:400000]
+                rep["case"] = describe(err.last_case) if describe else err.last_case[:2000]
+            if not st["ok"]:
+                rep["proof"] = st["detail"][-800:]
+            violation(ctx, f"the real code crashed while the harness executed a generated case ({(msg or ['process died'])[0][:200]})", rep)
+        elif not st["ok"]:
             violation(ctx, f"{pid} proof obligations no longer check: " + st["detail"].strip()[:300],
                       dict(kind="proof-broken", detail=st["detail"], failed=st.get("failed_decls", []),
                            searched=f"{len(lines)} generated cases against the property's clauses: no failing input"), no_input=True)
-        elif hb_ok and failures and any("HIST-BEGIN" in f[1] or "panicked" in f[1] for f in failures):
-            key, err = [f for f in failures if "HIST-BEGIN" in f[1] or "panicked" in f[1]][0]
-            msg = [l for l in err.splitlines() if "panicked" in l or "overflow" in l or "abort" in l.lower()]
-            violation(ctx, f"the real code crashed while the harness executed a generated history ({(msg or ['process died'])[0][:200]})",
-                      dict(kind="crash-in-implementation", harness_job=key, history_so_far=[l for l in err.splitlines() if l.startswith("EV") or l.startswith("HIST")],
-                           stderr_tail=err[-2500:], replay_cmd=f"VERIF_SEED={ctx.seed} harness/target/release/" + key))
         elif not hb_ok or failures:
             violation(ctx, "correspondence harness does not build/run against the current tree",
                       dict(kind="correspondence-broken", detail=(hb_out[-1500:] if not hb_ok else str(failures))), no_input=True)
